@@ -183,7 +183,7 @@ def run_cell(cell, unit_c_path, workdir, log):
         results, msgs, status = parse_cbmc_json(outp)
         joined = "\n".join(msgs)
         if results is None:
-            att["outcome"] = "error: " + (joined[-600:] or err[-600:])
+            att["outcome"] = "error: " + " | ".join((joined or err).strip().splitlines()[-2:])[-400:]
             res["attempts"].append(att)
             continue
         if re.search(r"ignoring (forall|exists)", joined) or "Parse Error" in joined or "SMT2 solver returned error" in joined:
